@@ -46,7 +46,7 @@ CHECKS = {
     "C05": dict(
         engine="E1+E3",
         category="exploration",
-        text="Generated completion histories: operation, bookkeeping (user_data 0-3) and F_SKIP completions in generated batches, CQ sizes 2..64, start counters incl. 2^32-k, overflow bursts, unpublished slots poisoned with a plausible completion; oracle: each posted operation CQE is delivered exactly once to its operation, nothing else is delivered, head==tail after Ring::poll.",
+        text="Generated completion histories: operation, bookkeeping (user_data 0-3) and F_SKIP completions in generated batches, CQ sizes 2..64, start counters incl. 2^32-k, overflow bursts, unpublished slots poisoned with a plausible completion; oracle: each posted operation CQE is delivered exactly once to its operation, nothing else is delivered, head==tail after Ring::poll. Publication order: the operations completed by one Ring::poll (each woken exactly once, through wakers that share no block) must have been woken in the order of their completions' ring positions.",
         design_ref="5/C05",
         technique="model-based property testing (proptest histories) against a simulated io_uring kernel; exactly-once delivery model + poisoned unpublished slots",
     ),
@@ -142,7 +142,7 @@ CHECKS.update({
     "C12": dict(
         engine="E1+E2+E3",
         category="exploration",
-        text="Generated histories (one in seven with a completion queue of 1..4 entries and 3..14 running operations, so that the cancellations of the Ring's drop overflow it; one in five on a direct descriptor) ending in a generated permutation of dropping {Ring, queue handles, AsyncFd, every future (unpolled/blocked/queued/running/abandoned/finished), ReadBufPool, ReadBufs}, some drops on a helper thread, then wake(): no panic, ring mappings unmapped exactly once with the right length, ring descriptor closed once and last, Ring drop submits/cancels/reclaims, pool memory never freed while registered, no descriptor, registration, heap block or waker clone left behind. Rings include single_issuer+defer_task_run ones (simulator K13: task-work completions visible only in enter(GETEVENTS)) and requests completing inline during the Ring's drop flush. One case in eight is a multi-completion case (multishot accept / poll / signal iterator, zero-copy sends) with the Ring dropped inside the history, futures polled and dropped afterwards: abandoned operations' state and buffers live until, and freed exactly once after, the consumption of their last completion; nothing the kernel holds is freed.",
+        text="Generated histories (one in seven with a completion queue of 1..4 entries and 3..14 running operations, so that the cancellations of the Ring's drop overflow it; one in five on a direct descriptor) ending in a generated permutation of dropping {Ring, queue handles, AsyncFd, every future (unpolled/blocked/queued/running/abandoned/finished), ReadBufPool, ReadBufs}, some drops on a helper thread, then wake(): no panic, ring mappings unmapped exactly once with the right length, ring descriptor closed once and last, Ring drop submits/cancels/reclaims, pool memory never freed while registered, no descriptor, registration, heap block or waker clone left behind. Rings include single_issuer+defer_task_run ones (simulator K13: task-work completions visible only in enter(GETEVENTS)) and requests completing inline during the Ring's drop flush. One case in eight is a multi-completion case (multishot accept / poll / signal iterator, zero-copy sends) with the Ring dropped inside the history, futures polled and dropped afterwards: abandoned operations' state and buffers live until, and freed exactly once after, the consumption of their last completion; nothing the kernel holds is freed. Teardown histories optionally poll every remaining future right after the Ring's drop: nothing published, no panic, only operations whose final completion the Ring consumed resolve.",
         design_ref="5/C12",
         technique="model-based property testing with generated teardown permutations; mmap/close ledger (libc interposition) and allocation-tracker oracles",
     ),
@@ -162,7 +162,7 @@ CHECKS.update({
     "C11": dict(
         engine="E1+E4 baton scheduler",
         category="exploration",
-        text="Generated programs (poller: Ring::poll(Some(0)) x0..2 then Ring::poll(None); 1..3 waker threads calling wake() once or twice; default, kernel-thread and single-issuer rings; optionally a full submission queue) executed under a baton scheduler with scheduling points at a10's lock/try_lock, kernel-shared loads, tail/head stores and the polling-state swap/fetch_or, following generated choice tapes; oracle over the total order: a wake() that started after the previous poll returned must make the blocking poll return (stuck state = poller parked in enter with no runnable thread); wake() after the Ring is dropped is harmless. Waker threads optionally queue 1..2 operations of their own right before wake(), so that the wake message is not at the head of the queue.",
+        text="Generated programs (poller: Ring::poll(Some(0)) x0..2 then Ring::poll(None); 1..3 waker threads calling wake() once or twice; default, kernel-thread and single-issuer rings; optionally a full submission queue) executed under a baton scheduler with scheduling points at a10's lock/try_lock, kernel-shared loads, tail/head stores and the polling-state swap/fetch_or, following generated choice tapes; oracle over the total order: a wake() that started after the previous poll returned must make the blocking poll return (stuck state = poller parked in enter with no runnable thread); wake() after the Ring is dropped is harmless. Waker threads optionally queue 1..2 operations of their own right before wake(), so that the wake message is not at the head of the queue. Kernel-thread rings may start with the thread asleep; a wake() that is still going round after the step budget while the Ring is alive is a violation.",
         design_ref="5/C11",
         technique="schedule-exploring property-based testing (generated interleavings under a baton scheduler) with a lost-wake-up oracle",
         note="Trusted: simulated kernel (MSG_RING delivery, SQPOLL idle/wake-up protocol), scheduler hook placement; sequential consistency only; bounded liveness (no runnable thread) rather than eventual progress under all fair schedules.",
